@@ -366,7 +366,20 @@ def import_only(repo: Repo, rep):
         else:
             rep.violation("R-IMPORT-ONLY", f, c, "ensure_import inserts text that is not made only of `from <module> import <name>` lines", construct="inserted-text")
     # names already imported are skipped
-    adds = [n for n in cfg.live for c in node_calls(n) if isinstance(c.func, ast.Attribute) and c.func.attr == "append" and norm(c.func.value) == "to_add"]
+    # the queue of missing imports is the list the inserted text is built from (`for module, name in <queue>: code += ...`)
+    queues = set()
+    for n, c in ins:
+        txt = c.args[1] if len(c.args) > 1 else None
+        if isinstance(txt, ast.Name):
+            for d in defs_of(cfg, txt.id):
+                if d.kind == "stmt" and isinstance(d.ast, ast.AugAssign):
+                    for a_ in ancestors(d.ast):
+                        if isinstance(a_, ast.For) and isinstance(a_.iter, ast.Name):
+                            queues.add(a_.iter.id)
+        elif txt is not None:
+            for g_ in [x for x in ast.walk(txt) if isinstance(x, ast.comprehension) and isinstance(x.iter, ast.Name)]:
+                queues.add(g_.iter.id)
+    adds = [n for n in cfg.live for c in node_calls(n) if isinstance(c.func, ast.Attribute) and c.func.attr == "append" and norm(c.func.value) in queues]
     conds = [(cnd, "F") for cnd in cfg.conds() if isinstance(cnd.ast, ast.Call) and norm(cnd.ast.func).endswith("contains_import")]
     if adds and conds and all(edges_dominate(cfg, conds, a) for a in adds):
         rep.ok("R-IMPORT-ONLY", f, adds[0].ast, "an import is added only if contains_import() does not find it")
